@@ -231,9 +231,20 @@ class Chain:
                     out.append(l2)
         return out, opaque
 
-    def _stable_params(self, f):
-        """parameters whose value at any point of f is the value the caller passed"""
-        written = {k[1] for (_, _, k) in f._writes() if k[0] == "id"}
+    def _stable_params(self, f, site=None):
+        """parameters whose value at `site` (default: anywhere in f) is the value the caller passed"""
+        if site is None or site == "exit":
+            written = {k[1] for (_, _, k) in f._writes() if k[0] == "id"}
+        else:
+            # only writes that can execute before the site count
+            loc = f.block_of(site)
+            written = set()
+            for (wb, wi, k) in f._writes():
+                if k[0] != "id":
+                    continue
+                if loc is None or (wb == loc[0] and wi < loc[1]) or (wb != loc[0] and loc[0] in f.reachable(wb)) \
+                        or (wb == loc[0] and loc[0] in f.reachable_from_succs(wb)):
+                    written.add(k[1])
         ok = set()
         for p in f.params:
             if p.get("id") in written:
@@ -379,7 +390,7 @@ class Chain:
             if any(entails(x, g) for x in F):
                 return ("ok", "entailed in %s after local look-through" % f.short, trail)
         variants = variants + expanded
-        stable = self._stable_params(f)
+        stable = self._stable_params(f, site)
         results = []
         # field -> constructor
         for (g, F) in variants:
